@@ -166,7 +166,7 @@ def _solve_one(task):
                                 model[d.name()] = _val_to_py(m[d])
                             except Exception:
                                 model[d.name()] = None
-            elif be in ("cvc5", "z3-cli"):
+            elif be in ("cvc5", "z3-cli", "z3-new-cli"):
                 with tempfile.NamedTemporaryFile("w", suffix=".smt2", delete=False, dir=os.environ.get("PYVC_TMP")) as f:
                     f.write("(set-logic ALL)\n" if be == "cvc5" else "")
                     txt = smt2
@@ -181,6 +181,8 @@ def _solve_one(task):
                 try:
                     if be == "cvc5":
                         cmd = ["/usr/bin/cvc5", "--strings-exp", "--tlimit=%d" % timeout_ms, path]
+                    elif be == "z3-new-cli":
+                        cmd = ["z3-new", "-T:%d" % max(1, timeout_ms // 1000), path]
                     else:
                         cmd = ["/usr/bin/z3", "-T:%d" % max(1, timeout_ms // 1000), path]
                     p = subprocess.run(cmd, capture_output=True, text=True, timeout=timeout_ms / 1000 + 10)
